@@ -18,11 +18,12 @@ cap are `Gen.transferFacts`, re-extracted from src/stream.rs on every run.  `+` 
 addition in ℕ (no wrap-around).  All theorems hold for both build profiles (`m`).
 
 clause → theorem
-* facts the proofs rest on (re-checked by `decide`) ........... `ack_cap_fact`, `ack_file_fact`, `credit_add_fact`
+* facts the proofs rest on (re-checked by `decide`) ........... `ack_cap_fact`, `ack_file_fact`, `credit_add_fact`, `credit_checked_fact`,
+  `resume_cap_fact`, `reconnect_cancel_first_fact`, `advance_keeps_cancel_fact`
 * acked ≤ sent after every history .......................... `acked_le_sent`
 * foreign-file or stale ack changes nothing ................. `foreign_or_stale_ack_inert`
-* credit granted ⇒ nothing in flight ∨ in-flight + len ≤ window `credit_sound`  (and never a panic: `credit_never_panics`; converse: `credit_granted_iff`)
-* documented loop ⇒ in flight ≤ max window lastChunk ........ `loop_bound` (every prefix: `loop_bound_prefix`)
+* credit granted ⇒ nothing in flight ∨ in-flight + len ≤ window `credit_sound_all` (general form `credit_sound`; never a panic: `credit_never_panics`; converse: `credit_granted_iff`)
+* documented loop ⇒ in flight ≤ max window lastChunk ........ `loop_bound_all` (general forms `loop_bound`, `loop_bound_prefix`)
 * cancel permanent, first reason wins ....................... `cancel_sticky_first_reason`, `cancel_records_first`
 * every later wait reports it; resume refused ............... `waits_report_cancel`, `resume_refused_after_cancel`
 * the release profile never poisons the mutex ............... `release_never_poisons`
@@ -43,6 +44,16 @@ theorem ack_file_fact : F.ackFileTest = true := by decide
 /-- `in_flight + chunk_len` is not a bare `+` (which wraps in release builds and panics under the mutex
 in dev builds): it is a checked or a saturating add. -/
 theorem credit_add_fact : F.creditAdd ≠ .unchecked := by decide
+/-- … in fact a checked add (`checked_add` with `None` read as "does not fit"): the sum is exact for every
+window, including `u64::MAX`, where a saturating add would over-grant. -/
+theorem credit_checked_fact : F.creditAdd = .checked := by decide
+/-- `request_resume`'s implicit ACK is capped: `&& last_received_offset <= sent_offset`. -/
+theorem resume_cap_fact : F.resumeCap = true := by decide
+/-- `wait_for_reconnect` looks at `cancelled` before it takes the pending resume. -/
+theorem reconnect_cancel_first_fact : F.reconnCancelFirst = true := by decide
+/-- `advance_to_file` does not touch `cancelled`. -/
+theorem advance_keeps_cancel_fact : F.advanceKeepsCancel = true := by decide
+
 /-- The credit sum is exact: a checked add always, a saturating add unless the window is `u64::MAX`. -/
 theorem credit_exact (w : Nat) (hw : F.creditAdd = .checked ∨ w + 1 < U64) : CreditExact F w := by
   rcases hw with h | h
@@ -58,7 +69,7 @@ theorem credit_exact (w : Nat) (hw : F.creditAdd = .checked ∨ w + 1 < U64) : C
 (in particular from a fresh control). -/
 theorem acked_le_sent (m : OvMode) (s : State) (h : s.acked ≤ s.sent) (ops : List Op) :
     (run F m s ops).acked ≤ (run F m s ops).sent :=
-  run_inv (fun s => s.acked ≤ s.sent) (fun s op h => step_acked_le_sent ack_cap_fact s op h) ops s h
+  run_inv (fun s => s.acked ≤ s.sent) (fun s op h => step_acked_le_sent ack_cap_fact resume_cap_fact s op h) ops s h
 
 theorem acked_le_sent_fresh (m : OvMode) (window capacity : Nat) (ops : List Op) :
     (run F m (init window capacity) ops).acked ≤ (run F m (init window capacity) ops).sent :=
@@ -79,6 +90,14 @@ theorem credit_sound (m : OvMode) (s : State) (len : Nat) (hw : F.creditAdd = .c
     (h : (step F m s (.waitCredit len)).2 = .creditOk) :
     s.cancelled = none ∧ (inFlight s = 0 ∨ inFlight s + len ≤ s.window) :=
   (waitCredit_ok ((credit_exact _ hw).addExact _ _) h).2
+
+/-- The property's clause at full strength, no side condition: with the checked add the source has, credit is
+granted only if nothing is in flight or in-flight plus the chunk fits the window — every state (every 64-bit
+`sent`, `acked`, `window`), every chunk length, both profiles. -/
+theorem credit_sound_all (m : OvMode) (s : State) (len : Nat)
+    (h : (step F m s (.waitCredit len)).2 = .creditOk) :
+    s.cancelled = none ∧ (inFlight s = 0 ∨ inFlight s + len ≤ s.window) :=
+  credit_sound m s len (Or.inl credit_checked_fact) h
 
 example : (step F .checks { window := 8, capacity := 0, sent := 4, acked := 1 } (.waitCredit 4)).2 = .creditOk := by decide
 example : (step F .wraps { window := 8, capacity := 0, sent := 4, acked := 1 } (.waitCredit 6)).2 = .creditTimeout := by decide
@@ -117,6 +136,13 @@ theorem loop_bound (m : OvMode) (window capacity : Nat) (hw : F.creditAdd = .che
   rw [h.2] at hb
   exact hb
 
+/-- The same without a side condition on the window (checked add). -/
+theorem loop_bound_all (m : OvMode) (window capacity : Nat) (a b : List Op)
+    (hf : Follows F m (init window capacity) {} (a ++ b)) :
+    inFlight (run F m (init window capacity) a) ≤
+      max window (runGhost F m (init window capacity) {} a).lastLen :=
+  loop_bound m window capacity (Or.inl credit_checked_fact) a (Follows.prefix a b _ _ hf)
+
 /-- … at every point of such a history, not only at its end. -/
 theorem loop_bound_prefix (m : OvMode) (window capacity : Nat) (hw : F.creditAdd = .checked ∨ window + 1 < U64)
     (a b : List Op) (hf : Follows F m (init window capacity) {} (a ++ b)) :
@@ -136,7 +162,7 @@ example : Follows F .checks (init 4 0) {}
 permanent, first reason wins. -/
 theorem cancel_sticky_first_reason (m : OvMode) (s : State) (r : Nat) (h : s.cancelled = some r) (ops : List Op) :
     (run F m s ops).cancelled = some r :=
-  run_inv (fun s => s.cancelled = some r) (fun s op h => step_cancel_sticky s op r h) ops s h
+  run_inv (fun s => s.cancelled = some r) (fun s op h => step_cancel_sticky advance_keeps_cancel_fact s op r h) ops s h
 
 /-- The first `cancel` records its reason. -/
 theorem cancel_records_first (m : OvMode) (s : State) (r : Nat) (hp : s.poisoned = false) (h : s.cancelled = none) :
@@ -149,14 +175,14 @@ theorem waits_report_cancel (m : OvMode) (s : State) (r : Nat) (h : s.cancelled 
     (hp : (run F m s ops).poisoned = false) :
     (∀ len, step F m (run F m s ops) (.waitCredit len) = (run F m s ops, .creditCancelled r)) ∧
     step F m (run F m s ops) .waitReconnect = (run F m s ops, .reconnCancelled r) :=
-  let hc := cancelled_waits (f := F) (m := m) _ r hp (cancel_sticky_first_reason m s r h ops)
+  let hc := cancelled_waits (f := F) (m := m) reconnect_cancel_first_fact _ r hp (cancel_sticky_first_reason m s r h ops)
   ⟨hc.1, hc.2.1⟩
 
 /-- … and a resume request is refused without touching peer, pending resume or offsets. -/
 theorem resume_refused_after_cancel (m : OvMode) (s : State) (r : Nat) (h : s.cancelled = some r) (ops : List Op)
     (hp : (run F m s ops).poisoned = false) (p file off : Nat) :
     step F m (run F m s ops) (.requestResume p file off) = (run F m s ops, .resumeCancelled) :=
-  (cancelled_waits (f := F) (m := m) _ r hp (cancel_sticky_first_reason m s r h ops)).2.2 p file off
+  (cancelled_waits (f := F) (m := m) reconnect_cancel_first_fact _ r hp (cancel_sticky_first_reason m s r h ops)).2.2 p file off
 
 example : ((step F .checks (init 4 4) (.cancel 5)).1).cancelled = some 5 ∧
     (run F .checks (step F .checks (init 4 4) (.cancel 5)).1 [.cancel 6, .advance 1, .recordAck 1 0]).poisoned = false := by
